@@ -22,7 +22,11 @@ RULE = ("case = (generated class hierarchy: root {DBC, metaclass=DBCMeta, plain 
         "an operation). Oracle: the event trace of every operation equals the reference trace (which invariants, "
         "in which order, before/after, body run or not, error surfaced). non-trivial = history with a sub-class "
         "constructor, or an operation with a falsy invariant, or a class with both CALL-only and SETATTR-only "
-        "invariants; distinct = hash(program, history).")
+        "invariants; distinct = hash(program, history). Plus enumerated families (builtin bases, renamed members, undecorated "
+        "middle classes, __setattr__ aliases, constructor and invariant-order matrices) and nested helpers: a constructor / "
+        "public method calls a contract-carrying helper {function, static method, method of the same / another instance} "
+        "that {returns, raises from its body, is rejected}, handles it and calls public methods of the same instance - "
+        "the invariants are evaluated only around the outermost operation.")
 ASSUMPTIONS = ["operations reaching inherited C slots (==, hash, str on classes without Python definitions) are 'may "
                "check' in the statement and not used as probes",
                "sub-classes are generated only under DBC/DBCMeta (inheritance of contracts without them is documented "
@@ -681,6 +685,131 @@ def undecorated_middle_cases(ctx, only=None):
                         break
 
 
+def nested_helper_cases(ctx, only=None):
+    """While a constructor or a public method of an invariant class runs, it calls a contract-carrying helper (a function,
+    a static method, another public method of the same instance, a method of another instance), the helper returns /
+    its BODY raises / its precondition is violated, the caller handles that and goes on calling public methods of the
+    same instance. The invariants of the instance are evaluated exactly once (after the constructor) or twice (around the
+    outermost method call), never in between. Enumerated: caller x helper x helper outcome x number of helper calls x
+    sync/async."""
+    import itertools
+    import icontract
+    from vf.progmodel.run import drive
+
+    for is_async, site, helper, outcome, repeat in itertools.product(
+            (False, True), ("init", "method"), ("function-pre", "function-post", "static", "same-instance", "other-instance"),
+            ("returns", "body-raises", "violated"), (1, 2)):
+        if is_async and site == "init":
+            continue
+        key = "%s|%s|%s|%s|%d" % ("async" if is_async else "sync", site, helper, outcome, repeat)
+        if only is not None and only != key:
+            continue
+        evals = []
+
+        def inv(self):
+            evals.append((self.tag, getattr(self, "state", "unset")))
+            return True
+
+        def run_body(flag):
+            if flag == "body-raises":
+                raise KeyError("raised by the body of the helper")
+            return 1
+
+        def ok(flag):
+            return flag != "violated"
+
+        if is_async:
+            @icontract.require(ok)
+            async def fpre(flag):
+                return run_body(flag)
+
+            @icontract.ensure(lambda result: True)
+            @icontract.require(ok)
+            async def fpost(flag):
+                return run_body(flag)
+        else:
+            @icontract.require(ok)
+            def fpre(flag):
+                return run_body(flag)
+
+            @icontract.ensure(lambda result: True)
+            @icontract.require(ok)
+            def fpost(flag):
+                return run_body(flag)
+
+        def call(thunk):
+            r = thunk()
+            return drive(r) if is_async else r
+
+        def steps(self):
+            for _ in range(repeat):
+                try:
+                    if helper == "function-pre":
+                        call(lambda: fpre(outcome))
+                    elif helper == "function-post":
+                        call(lambda: fpost(outcome))
+                    elif helper == "static":
+                        call(lambda: self.st(outcome))
+                    elif helper == "same-instance":
+                        call(lambda: self.helper(outcome))
+                    else:
+                        call(lambda: self.other.helper(outcome))
+                except (KeyError, icontract.ViolationError):
+                    pass
+                self.note()
+
+        ns = {"icontract": icontract, "inv": inv, "ok": ok, "run_body": run_body, "steps": steps}
+        A = "async " if is_async else ""
+        src = [
+            "@icontract.invariant(inv)",
+            "class K:",
+            "    def __init__(self, tag, other=None, busy=False):",
+            "        self.tag = tag",
+            "        self.other = other",
+            "        self.notes = 0",
+            "        if busy:",
+            "            steps(self)",
+            "        self.state = 'stable'",
+            "    def note(self):",
+            "        self.notes += 1",
+            "    @staticmethod",
+            "    @icontract.require(ok)",
+            "    %sdef st(flag):" % A,
+            "        return run_body(flag)",
+            "    @icontract.require(ok)",
+            "    %sdef helper(self, flag):" % A,
+            "        return run_body(flag)",
+            "    %sdef work(self):" % A,
+            "        self.state = 'mid'",
+            "        steps(self)",
+            "        self.state = 'stable'",
+        ]
+        exec("\n".join(src), ns)
+        K = ns["K"]
+        other = K("other")
+        del evals[:]
+        err = None
+        try:
+            if site == "init":
+                o = K("main", other, busy=True)
+                want = [("main", "stable")]
+            else:
+                o = K("main", other)
+                del evals[:]
+                call(lambda: o.work())
+                want = [("main", "stable"), ("main", "stable")]
+        except BaseException as e:  # noqa
+            err = "%s: %s" % (type(e).__name__, str(e).splitlines()[0] if str(e) else "")
+            o = None
+        got = [e for e in evals if e[0] == "main"]
+        ctx.case(["nested-helper", key], outcome != "returns", sample={"directed": "nested helper: " + key, "evaluations": [list(e) for e in evals]})
+        ctx.count("directed:nested-helper")
+        if err is not None or got != want or (o is not None and o.notes != repeat):
+            ctx.fail("nested-helper|%s|%s|%s|%s" % ("async" if is_async else "sync", site, helper, outcome), {"nested_helper": key},
+                     "%s: the invariant of the instance must be evaluated on (instance, state) %r only; evaluated %r%s" % (
+                         key, want, got, "; the operation raised " + err if err else ""))
+
+
 def directed(ctx, only=None):
     D.run_one(ctx, dict(D19_CASE), judge, nontrivial=lambda *a: True)
     if only is None:
@@ -688,6 +817,7 @@ def directed(ctx, only=None):
         renamed_members(ctx)
         undecorated_middle_cases(ctx)
         setattr_alias_cases(ctx)
+        nested_helper_cases(ctx)
     if only is None:
         n = 0
         for case in constructor_matrix():
@@ -702,6 +832,11 @@ def directed(ctx, only=None):
 
 
 def replay(ctx, case):
+    if case.get("nested_helper"):
+        before = ctx.evaluations
+        nested_helper_cases(ctx, only=case["nested_helper"])
+        ctx.evaluations = before + 1
+        return
     if case.get("setattr_alias"):
         before = ctx.evaluations
         setattr_alias_cases(ctx, only=case["setattr_alias"])
